@@ -1,1 +1,4 @@
 import Rtsp.Props.C07
+#print axioms Rtsp.Codec.Fragmented.c07_marker_cleans
+#print axioms Rtsp.Codec.Fragmented.c07_flush
+#print axioms Rtsp.Codec.Fragmented.c07_resync
